@@ -35,12 +35,21 @@ type mySQLUndoDeleteExecutor struct {
 // newMySQLUndoDeleteExecutor init
 func newMySQLUndoDeleteExecutor(sqlUndoLog undo.SQLUndoLog) *mySQLUndoDeleteExecutor {
 	return &mySQLUndoDeleteExecutor{
-		sqlUndoLog:   sqlUndoLog,
-		baseExecutor: &BaseExecutor{sqlUndoLog: sqlUndoLog, undoImage: sqlUndoLog.AfterImage},
+		sqlUndoLog: sqlUndoLog,
+		// the rows to look at are those of the before image: the after image of a DELETE is empty
+		baseExecutor: &BaseExecutor{sqlUndoLog: sqlUndoLog, undoImage: sqlUndoLog.BeforeImage},
 	}
 }
 
 func (m *mySQLUndoDeleteExecutor) ExecuteOn(ctx context.Context, dbType types.DBType, conn *sql.Conn) error {
+	// never re-insert over a row somebody else has put under the deleted key meanwhile
+	ok, err := m.baseExecutor.dataValidationAndGoOn(ctx, conn)
+	if err != nil {
+		return err
+	}
+	if !ok {
+		return nil
+	}
 
 	undoSql, _ := m.buildUndoSQL(dbType)
 
